@@ -180,3 +180,82 @@ def evaluate(F, path, params, max_steps=2000):
                 raise Undecidable('call to %s' % full)
         else:
             raise Undecidable('terminator %s' % t[0])
+
+
+def reach_with(F, path, fixed, max_states=20000):
+    """Blocks reachable when some bool/int locals are fixed (partial evaluation): locals are tracked through copies, moves,
+    constants and Not; everything else is unknown, and a switch on an unknown value takes all its edges."""
+    blocks = F.blocks(path)
+    seen = set()
+    reached = set()
+    work = [(0, tuple(sorted(fixed.items())))]
+    while work:
+        bb, envt = work.pop()
+        if (bb, envt) in seen:
+            continue
+        seen.add((bb, envt))
+        if len(seen) > max_states:
+            raise Undecidable('state bound')
+        reached.add(bb)
+        env = dict(envt)
+        blk = blocks[bb]
+
+        def val(o):
+            if 'const' in o:
+                try:
+                    return _const(o['const'])
+                except Undecidable:
+                    return None
+            pl = o.get('copy') or o.get('move')
+            if pl is not None and not pl['p']:
+                return env.get(pl['l'])
+            return None
+        for st in blk['s']:
+            if st[0] == 'assign' and not st[1]['p']:
+                rv = st[2]
+                v = None
+                if rv[0] == 'use':
+                    v = val(rv[1])
+                elif rv[0] == 'unop' and rv[1] == 'Not':
+                    a = val(rv[2])
+                    v = (not a) if isinstance(a, bool) else None
+                elif rv[0] == 'binop' and rv[1] in ('Eq', 'Ne', 'BitAnd', 'BitOr'):
+                    a, b = val(rv[2]), val(rv[3])
+                    if a is not None and b is not None and isinstance(a, bool) == isinstance(b, bool):
+                        v = {'Eq': a == b, 'Ne': a != b, 'BitAnd': (a and b) if isinstance(a, bool) else None, 'BitOr': (a or b) if isinstance(a, bool) else None}[rv[1]]
+                    elif rv[1] == 'BitAnd' and (a is False or b is False):
+                        v = False
+                    elif rv[1] == 'BitOr' and (a is True or b is True):
+                        v = True
+                if v is None or v == ():
+                    env.pop(st[1]['l'], None)
+                else:
+                    env[st[1]['l']] = v
+            elif st[0] == 'assign':
+                pass
+        t = blk['t']
+        nxt = []
+        if t[0] == 'goto':
+            nxt = [t[1]]
+        elif t[0] == 'switch':
+            v = val(t[1])
+            if v is None:
+                nxt = [tg for _, tg in t[2]] + [t[3]]
+            else:
+                iv = int(v) if isinstance(v, bool) else v
+                nxt = [next((tg for x, tg in t[2] if x == iv), t[3])]
+        elif t[0] == 'call':
+            d = t[1].get('dest')
+            if d and not d['p']:
+                env.pop(d['l'], None)
+            if t[1].get('target') is not None:
+                nxt = [t[1]['target']]
+        elif t[0] == 'assert':
+            nxt = [t[4]]
+        elif t[0] == 'drop':
+            nxt = [t[2]]
+        envt2 = tuple(sorted(env.items()))
+        for n in nxt:
+            if n is not None:
+                work.append((n, envt2))
+    return reached
